@@ -14,14 +14,14 @@ ASSUMPTIONS = ["that a finite primal value is attained by a real member (interpo
 
 
 def run(ctx):
+    from . import genprog
+    genprog.r_generators(ctx, {"emit"})    # the generators unrolled: one condition per sample / admissible pair, whatever the labels
     ca = formula.get(ctx.repo)
     n = formula.r_formula(ctx, "complete")
     sites, sym = formula.r_skip(ctx)
     formula.r_diag(ctx)
     nl = formula.r_one_and_lmidom(ctx)
     formula.r_statpair(ctx)
-    from . import genprog
-    genprog.r_generators(ctx, {"emit"})    # the generators unrolled: one condition per sample / admissible pair, whatever the labels
     formula.r_domain(ctx)
     formula.r_regen(ctx)
     formula.r_params(ctx)
